@@ -234,4 +234,38 @@ def F128.runUn (m : Int) : UnOp → Int → Int
   | .abs, a => F128.abs a | .trunc, a => F128.trunc m a | .ceil, a => F128.ceil m a | .round, a => F128.round m a
   | .inc, a => F128.inc m a | .dec, a => F128.dec m a
 
+/-! ## text of a value and of a fraction (hardening pass: `Fraction.String`, `StringWithSign`, `MarshalJSON`,
+    `NewFraction`, `UnmarshalJSON` are exercised too) -/
+
+def stripTrailingZeros (l : List Char) : List Char := (l.reverse.dropWhile (· == '0')).reverse
+
+/-- `Int.String()` (both types): the integer part toward zero, then the fraction digits of `|raw mod m| + m` without
+    the leading `1` and without trailing zeros; a negative value with integer part 0 keeps its sign -/
+def render (m raw : Int) : String :=
+  let ip := raw.tdiv m
+  let fr := (raw.tmod m).natAbs
+  if fr = 0 then toString ip
+  else
+    let digits := (toString (fr + m.toNat)).toList.drop 1
+    (if ip = 0 ∧ raw < 0 then "-" else "") ++ toString ip ++ "." ++ String.ofList (stripTrailingZeros digits)
+
+/-- `StringWithSign()` -/
+def renderSign (m raw : Int) : String := if raw ≥ 0 then "+" ++ render m raw else render m raw
+
+/-- `NewFraction`: numerator and denominator are `FromStringForced` of the trimmed parts (0 when the text is not a
+    number); without a slash the denominator is `From(1)` -/
+def F64.fracNew (m n : Int) (d : Option Int) : Int × Int := (n, match d with | some d => d | none => F64.fromInt m 1)
+def F128.fracNew (m n : Int) (d : Option Int) : Int × Int :=
+  (n, match d with | some d => d | none => F128.fromInt ⟨64, true⟩ m 1)
+
+/-- `Fraction.String` / `StringWithSign`: normalise a copy, print the numerator, and `/denominator` unless it is 1 -/
+def F64.fracString (sign : Bool) (m n d : Int) : String :=
+  let p := F64.fracNormalize m n d
+  let s := if sign then renderSign m p.1 else render m p.1
+  if p.2 = F64.fromInt m 1 then s else s ++ "/" ++ render m p.2
+def F128.fracString (sign : Bool) (m n d : Int) : String :=
+  let p := F128.fracNormalize m n d
+  let s := if sign then renderSign m p.1 else render m p.1
+  if p.2 = F128.fromInt ⟨64, true⟩ m 1 then s else s ++ "/" ++ render m p.2
+
 end Fixed
